@@ -29,7 +29,16 @@ class C12(Prop):
     level_note = ("Lean kernel + standard axioms for checkers/brute force; CBC through python-mip and the dynamic "
                   "programme are outside Lean; sizes kept below 20 alternatives so the 5% MIP gap cannot hide a unit")
     technique = "Lean-verified certificate checkers and brute-force optima; differential correspondence on optimum and certificate"
-    theorems = []
+    theorems = [
+        "PrefVerif.ILPP.votdel_axis_feasible",
+        "PrefVerif.ILPP.votdel_feasible_axis",
+        "PrefVerif.ILPP.altdel_feasible_axis",
+        "PrefVerif.ILPP.altdel_axis_feasible",
+        "PrefVerif.Specs.mem_sublists",
+        "PrefVerif.Specs.spOnSubset_iff",
+        "PrefVerif.Specs.minAltDeletion_spec",
+        "PrefVerif.Specs.minVoterDeletion_spec",
+    ]
     rule = ("soc / toc profiles with 2-6 alternatives and 1-5 distinct orders: random, planted single-peaked plus "
             "k inserted alternatives / perturbed voters, weak orders with several alternatives tied at the top; "
             "k_alternative_deletion additionally on planted profiles up to m = 12 (certificate + agreement with the "
